@@ -145,12 +145,12 @@ KeyValid(r, cls) == cls \in {"default", "explicit_default", "atlo", "athi", "tru
 
 \* --------------------------------------------------------------------------------------- result kinds
 ResDomain == [ x      : {"finite", "nan"},
-               resid  : {"short", "long", "nan"},
-               jac    : {"none", "small", "large", "nan"},
+               resid  : {"short", "long", "nan", "inf"},
+               jac    : {"none", "small", "large", "nan", "inf"},
                jacen  : {"none", "short", "long"},
-               obj    : {"finite", "nan"},
+               obj    : {"finite", "nan", "inf"},
                flag   : {0, 1, 2, 3, 5, -2, -3, -4},
-               diag   : {"none", "table", "table_nan"},
+               diag   : {"none", "table", "table_nan", "table_inf"},      \* infinite entries: every field must still come back exactly (None stands for NaN only)
                nruns  : {1, 3},
                repl   : BOOLEAN ]
 
